@@ -20,16 +20,16 @@ structure Shrink (a b : Chan) : Prop where
   buf : b.buf = a.buf
   hCommit : b.hCommit = a.hCommit
   hRecv : b.hRecv = a.hRecv
-  closedMono : a.closed = true → b.closed = true
+  closed : b.closed = a.closed
   sendQ : b.sendQ.Sublist a.sendQ
   recvQ : b.recvQ.Sublist a.recvQ
 
 theorem Shrink.refl (a : Chan) : Shrink a a :=
-  ⟨rfl, rfl, rfl, rfl, rfl, fun h => h, List.Sublist.refl _, List.Sublist.refl _⟩
+  ⟨rfl, rfl, rfl, rfl, rfl, rfl, List.Sublist.refl _, List.Sublist.refl _⟩
 
 theorem Shrink.trans {a b c : Chan} (h1 : Shrink a b) (h2 : Shrink b c) : Shrink a c :=
   ⟨h2.isNil.trans h1.isNil, h2.cap.trans h1.cap, h2.buf.trans h1.buf, h2.hCommit.trans h1.hCommit,
-   h2.hRecv.trans h1.hRecv, fun h => h2.closedMono (h1.closedMono h), h2.sendQ.trans h1.sendQ, h2.recvQ.trans h1.recvQ⟩
+   h2.hRecv.trans h1.hRecv, h2.closed.trans h1.closed, h2.sendQ.trans h1.sendQ, h2.recvQ.trans h1.recvQ⟩
 
 theorem sub_ne_nil {α} {a b : List α} (h : b.Sublist a) (hb : b ≠ []) : a ≠ [] := by
   intro ha; subst ha; exact hb (List.sublist_nil.mp h)
@@ -87,9 +87,9 @@ theorem Shrinks.set (cs : List Chan) (c : Nat) {x : Chan} (hx : Shrink (cs.getD 
   · exact Shrink.refl _
 
 theorem filter_shrink_recv (ch : Chan) (p : Entry → Bool) : Shrink ch { ch with recvQ := ch.recvQ.filter p } :=
-  ⟨rfl, rfl, rfl, rfl, rfl, fun h => h, List.Sublist.refl _, List.filter_sublist⟩
+  ⟨rfl, rfl, rfl, rfl, rfl, rfl, List.Sublist.refl _, List.filter_sublist⟩
 theorem filter_shrink_send (ch : Chan) (p : Entry → Bool) : Shrink ch { ch with sendQ := ch.sendQ.filter p } :=
-  ⟨rfl, rfl, rfl, rfl, rfl, fun h => h, List.filter_sublist, List.Sublist.refl _⟩
+  ⟨rfl, rfl, rfl, rfl, rfl, rfl, List.filter_sublist, List.Sublist.refl _⟩
 
 theorem removeFromQueues_shrinks (g : Nat) (cases : List Case) : ∀ (i : Nat) (cs : List Chan),
     Shrinks cs (removeFromQueues g cases i cs) := by
@@ -121,18 +121,14 @@ theorem removeFromQueues_shrinks (g : Nat) (cases : List Case) : ∀ (i : Nat) (
 @[simp] theorem setC_chans (s : State) (c : Nat) (x : Chan) : (setC s c x).chans = s.chans.set c x := rfl
 theorem getC_def (s : State) (c : Nat) : getC s c = s.chans.getD c Chan.nil := rfl
 
-theorem fireRecv_shrinks (s : State) (e : Entry) (v : Nat) (ok : Bool) : Shrinks s.chans (fireRecv s e v ok).chans := by
-  unfold fireRecv; simp only; split
-  · simp; exact Shrinks.refl _
-  · simp; exact removeFromQueues_shrinks _ _ _ _
+theorem wakeG_shrinks (s : State) (g : Nat) (w : Wake) (cases : List Case) : Shrinks s.chans (wakeG s g w cases).chans := by
+  unfold wakeG; simp; exact removeFromQueues_shrinks _ _ _ _
 
-theorem fireSend_shrinks (s : State) (c : Nat) (e : Entry) (cl : Bool) (s' : State)
-    (h : fireSend s c e cl = some s') : Shrinks s.chans s'.chans := by
-  unfold fireSend at h; simp only at h; split at h
-  · cases h; simp; exact Shrinks.refl _
-  · split at h
-    · cases h
-    · cases h; simp; exact removeFromQueues_shrinks _ _ _ _
+theorem fireRecv_shrinks (s : State) (e : Entry) (v : Nat) (ok : Bool) : Shrinks s.chans (fireRecv s e v ok).chans := by
+  unfold fireRecv; split <;> exact wakeG_shrinks _ _ _ _
+
+theorem fireSend_shrinks (s : State) (e : Entry) (cl : Bool) : Shrinks s.chans (fireSend s e cl).chans := by
+  unfold fireSend; split <;> exact wakeG_shrinks _ _ _ _
 
 /-! ### the primitives -/
 
@@ -227,32 +223,31 @@ theorem doRecv_inv (s : State) (g c : Nat) (h : AllInv s.chans) : AllInv (doRecv
   split
   · next e sq heq =>
     have hsh0 : Shrink (getC s c) { getC s c with sendQ := sq } :=
-      ⟨rfl, rfl, rfl, rfl, rfl, fun h => h, by simp [heq], List.Sublist.refl _⟩
+      ⟨rfl, rfl, rfl, rfl, rfl, rfl, by simp [heq], List.Sublist.refl _⟩
     have h0 : AllInv (setC s c { getC s c with sendQ := sq }).chans := by
       simp only [setC_chans]; apply h.set; exact hc.shrink hsh0
     have hlen : c < s.chans.length := by
       apply Decidable.byContradiction; intro hn
       have : getC s c = Chan.nil := by simp [getC_def, List.getD_eq_getElem?_getD, List.getElem?_eq_none (Nat.le_of_not_lt hn)]
       rw [this] at heq; cases heq
-    split
-    · exact h0
-    · next s1 hf =>
-      have h1 : AllInv s1.chans := h0.shrinks (fireSend_shrinks _ _ _ _ _ hf)
-      have hsh : Shrink (getC (setC s c { getC s c with sendQ := sq }) c) (getC s1 c) := fireSend_shrinks _ _ _ _ _ hf c
-      have hg : getC (setC s c { getC s c with sendQ := sq }) c = { getC s c with sendQ := sq } := by
-        simp [getC_def, hlen]
-      rw [hg] at hsh
-      have hlen1 : c < s1.chans.length := by
-        apply Decidable.byContradiction; intro hn
-        have hnil : getC s1 c = Chan.nil := by simp [getC_def, List.getD_eq_getElem?_getD, List.getElem?_eq_none (Nat.le_of_not_lt hn)]
-        have h3 := hsh.isNil; rw [hnil] at h3
-        have := (hc.nil_empty (by simpa [Chan.nil, Chan.make] using h3.symm)).1
-        rw [heq] at this; cases this
-      apply recvTail_inv_pushed _ _ _ _ h1 hlen1
-      rw [hsh.cap, hsh.buf]; exact hc.send_full (by rw [heq]; simp)
+    have h1 : AllInv (fireSend (setC s c { getC s c with sendQ := sq }) e false).chans := h0.shrinks (fireSend_shrinks _ _ _)
+    have hsh : Shrink (getC (setC s c { getC s c with sendQ := sq }) c) (getC (fireSend (setC s c { getC s c with sendQ := sq }) e false) c) :=
+      fireSend_shrinks _ _ _ c
+    have hg : getC (setC s c { getC s c with sendQ := sq }) c = { getC s c with sendQ := sq } := by
+      simp [getC_def, hlen]
+    rw [hg] at hsh
+    generalize fireSend (setC s c { getC s c with sendQ := sq }) e false = s1 at h1 hsh ⊢
+    have hlen1 : c < s1.chans.length := by
+      apply Decidable.byContradiction; intro hn
+      have hnil : getC s1 c = Chan.nil := by simp [getC_def, List.getD_eq_getElem?_getD, List.getElem?_eq_none (Nat.le_of_not_lt hn)]
+      have h3 := hsh.isNil; rw [hnil] at h3
+      have := (hc.nil_empty (by simpa [Chan.nil, Chan.make] using h3.symm)).1
+      rw [heq] at this; cases this
+    apply recvTail_inv_pushed _ _ _ _ h1 hlen1
+    rw [hsh.cap, hsh.buf]; exact hc.send_full (by rw [heq]; simp)
   · next heq => exact recvTail_inv _ _ _ h heq
 
-theorem closeSenders_shrinks : ∀ (n : Nat) (s : State) (c : Nat), Shrinks s.chans (closeSenders n s c).1.chans := by
+theorem closeSenders_shrinks : ∀ (n : Nat) (s : State) (c : Nat), Shrinks s.chans (closeSenders n s c).chans := by
   intro n; induction n with
   | zero => intro s c; exact Shrinks.refl _
   | succ n ih =>
@@ -262,10 +257,8 @@ theorem closeSenders_shrinks : ∀ (n : Nat) (s : State) (c : Nat), Shrinks s.ch
     · next e sq heq =>
       have h0 : Shrinks s.chans (setC s c { getC s c with sendQ := sq }).chans := by
         simp only [setC_chans]; apply Shrinks.set
-        exact ⟨rfl, rfl, rfl, rfl, rfl, fun h => h, by rw [← getC_def, heq]; simp, List.Sublist.refl _⟩
-      split
-      · exact h0
-      · next s1 hf => exact (h0.trans (fireSend_shrinks _ _ _ _ _ hf)).trans (ih _ _)
+        exact ⟨rfl, rfl, rfl, rfl, rfl, rfl, by rw [← getC_def, heq]; simp, List.Sublist.refl _⟩
+      exact (h0.trans (fireSend_shrinks _ _ _)).trans (ih _ _)
 
 theorem closeRecvs_shrinks : ∀ (n : Nat) (s : State) (c : Nat), Shrinks s.chans (closeRecvs n s c).chans := by
   intro n; induction n with
@@ -277,30 +270,31 @@ theorem closeRecvs_shrinks : ∀ (n : Nat) (s : State) (c : Nat), Shrinks s.chan
     · next e rq heq =>
       have h0 : Shrinks s.chans (setC s c { getC s c with recvQ := rq }).chans := by
         simp only [setC_chans]; apply Shrinks.set
-        exact ⟨rfl, rfl, rfl, rfl, rfl, fun h => h, List.Sublist.refl _, by rw [← getC_def, heq]; simp⟩
+        exact ⟨rfl, rfl, rfl, rfl, rfl, rfl, List.Sublist.refl _, by rw [← getC_def, heq]; simp⟩
       exact (h0.trans (fireRecv_shrinks _ _ _ _)).trans (ih _ _)
 
-theorem doClose_shrinks (s : State) (c : Nat) : Shrinks s.chans (doClose s c).1.chans := by
+/-- the two loops of `$close`, after the flag was set -/
+theorem closeLoops_shrinks (s1 : State) (c n : Nat) :
+    Shrinks s1.chans (closeRecvs (getC (closeSenders n s1 c) c).recvQ.length (closeSenders n s1 c) c).chans :=
+  (closeSenders_shrinks _ _ _).trans (closeRecvs_shrinks _ _ _)
+
+theorem doClose_inv (s : State) (c : Nat) (h : AllInv s.chans) : AllInv (doClose s c).1.chans := by
   unfold doClose; simp only
   split
-  · exact Shrinks.refl _
-  · have h0 : Shrinks s.chans (setC s c { getC s c with closed := true }).chans := by
-      simp only [setC_chans]; apply Shrinks.set
-      exact ⟨rfl, rfl, rfl, rfl, rfl, fun _ => rfl, List.Sublist.refl _, List.Sublist.refl _⟩
-    split
-    · next s2 hcs => have := closeSenders_shrinks (getC s c).sendQ.length (setC s c { getC s c with closed := true }) c
-                     rw [hcs] at this; exact h0.trans this
-    · next s2 hcs => have := closeSenders_shrinks (getC s c).sendQ.length (setC s c { getC s c with closed := true }) c
-                     rw [hcs] at this; exact (h0.trans this).trans (closeRecvs_shrinks _ _ _)
-
-theorem doClose_inv (s : State) (c : Nat) (h : AllInv s.chans) : AllInv (doClose s c).1.chans :=
-  h.shrinks (doClose_shrinks s c)
+  · exact h
+  · split
+    · exact h
+    · have hc : ChanInv (getC s c) := h c
+      have h1 : AllInv (setC s c { getC s c with closed := true }).chans := by
+        simp only [setC_chans]; apply h.set
+        exact ⟨hc.buf_le, hc.recv_buf, hc.send_full, hc.nil_empty, hc.fifo⟩
+      exact h1.shrinks (closeLoops_shrinks _ _ _)
 
 /-- what "no case is ready" gives for the registration loop -/
 def NotReady (cs : List Chan) : Case → Prop
   | .dflt => True
-  | .recv c => (cs.getD c Chan.nil).buf = []
-  | .send c _ => (cs.getD c Chan.nil).cap ≤ (cs.getD c Chan.nil).buf.length
+  | .recv c => (cs.getD c Chan.nil).buf = [] ∧ (cs.getD c Chan.nil).closed = false
+  | .send c _ => (cs.getD c Chan.nil).cap ≤ (cs.getD c Chan.nil).buf.length ∧ (cs.getD c Chan.nil).closed = false
 
 theorem registerCases_inv (g : Nat) (cases : List Case) : ∀ (i : Nat) (cs : List Chan),
     AllInv cs → (∀ k ∈ cases, NotReady cs k) → AllInv (registerCases g cases i cs) := by
@@ -310,18 +304,18 @@ theorem registerCases_inv (g : Nat) (cases : List Case) : ∀ (i : Nat) (cs : Li
     intro i cs h hn
     have hk := hn k (by simp)
     have stable : ∀ (x : Chan) (c : Nat), x.buf = (cs.getD c Chan.nil).buf → x.cap = (cs.getD c Chan.nil).cap →
-        ∀ k' ∈ rest, NotReady (cs.set c x) k' := by
-      intro x c hb hcap k' hk'
+        x.closed = (cs.getD c Chan.nil).closed → ∀ k' ∈ rest, NotReady (cs.set c x) k' := by
+      intro x c hb hcap hcl k' hk'
       have := hn k' (by simp [hk'])
       cases k' with
       | dflt => trivial
       | recv c' =>
         simp only [NotReady] at this ⊢; rw [getD_set]; split
-        · next h' => rw [hb, h'.1]; exact this
+        · next h' => rw [hb, hcl, h'.1]; exact this
         · exact this
       | send c' v' =>
         simp only [NotReady] at this ⊢; rw [getD_set]; split
-        · next h' => rw [hb, hcap, h'.1]; exact this
+        · next h' => rw [hb, hcap, hcl, h'.1]; exact this
         · exact this
     cases k with
     | dflt => exact ih _ _ h (fun k' hk' => hn k' (by simp [hk']))
@@ -330,17 +324,17 @@ theorem registerCases_inv (g : Nat) (cases : List Case) : ∀ (i : Nat) (cs : Li
       have hc := h c
       apply ih
       · apply h.set
-        refine ⟨hc.buf_le, fun _ => hk, hc.send_full, ?_, hc.fifo⟩
+        refine ⟨hc.buf_le, fun _ => hk.1, hc.send_full, ?_, hc.fifo⟩
         intro hnil; have := hc.nil_empty hnil; simp only [pushQ]; rw [if_pos hnil]; exact this
-      · exact stable _ c rfl rfl
+      · exact stable _ c rfl rfl rfl
     | send c v =>
       unfold registerCases; simp only
       have hc := h c
       apply ih
       · apply h.set
-        refine ⟨hc.buf_le, hc.recv_buf, fun _ => hk, ?_, hc.fifo⟩
+        refine ⟨hc.buf_le, hc.recv_buf, fun _ => hk.1, ?_, hc.fifo⟩
         intro hnil; have := hc.nil_empty hnil; simp only [pushQ]; rw [if_pos hnil]; exact this
-      · exact stable _ c rfl rfl
+      · exact stable _ c rfl rfl rfl
 
 theorem scan_notReady (s : State) (cases : List Case) : ∀ (i : Nat) (d : Option Nat),
     scan s cases i = ([], d, false) → ∀ k ∈ cases, NotReady s.chans k := by
@@ -370,13 +364,14 @@ theorem scan_notReady (s : State) (cases : List Case) : ∀ (i : Nat) (d : Optio
         · subst h
           simp only [NotReady, ← getC_def]
           simp only [Chan.recvReady, Bool.or_eq_true, not_or, bne_iff_ne, ne_eq, Decidable.not_not] at hnr
-          exact List.eq_nil_of_length_eq_zero hnr.1.2
+          exact ⟨List.eq_nil_of_length_eq_zero hnr.1.2, by simpa using hnr.2⟩
         · exact ih _ _ hr k' h
     | send c v =>
       simp only at hs
       split at hs
       · simp at hs
-      · simp only [Prod.mk.injEq] at hs
+      · next hopen =>
+        simp only [Prod.mk.injEq] at hs
         obtain ⟨h1, _, h3⟩ := hs; subst h3
         split at h1
         · cases h1
@@ -386,7 +381,7 @@ theorem scan_notReady (s : State) (cases : List Case) : ∀ (i : Nat) (d : Optio
           · subst h
             simp only [NotReady, ← getC_def]
             simp only [Chan.sendReady, Bool.or_eq_true, not_or, decide_eq_true_eq] at hnr
-            omega
+            exact ⟨by omega, by simpa using hopen⟩
           · exact ih _ _ hr k' h
 
 theorem doSelect_inv (s : State) (g : Nat) (cases : List Case) (pick : Nat) (h : AllInv s.chans) :
@@ -494,5 +489,274 @@ theorem allInv_mem {cs : List Chan} (h : AllInv cs) {ch : Chan} (hm : ch ∈ cs)
   obtain ⟨i, hi, rfl⟩ := List.getElem_of_mem hm
   have := h i
   simpa [List.getD_eq_getElem?_getD, List.getElem?_eq_getElem hi] using this
+
+/-! ### closed channels hold no queue entries -/
+
+def CE (ch : Chan) : Prop := ch.closed = true → ch.sendQ = [] ∧ ch.recvQ = []
+def AllCE (cs : List Chan) : Prop := ∀ i, CE (cs.getD i Chan.nil)
+
+theorem CE.shrink {a b : Chan} (h : CE a) (s : Shrink a b) : CE b := by
+  intro hb
+  have := h (s.closed ▸ hb)
+  exact ⟨sub_eq_nil s.sendQ this.1, sub_eq_nil s.recvQ this.2⟩
+
+theorem AllCE.shrinks {a b : List Chan} (h : AllCE a) (s : Shrinks a b) : AllCE b := fun i => (h i).shrink (s i)
+
+theorem AllCE.set {cs : List Chan} (h : AllCE cs) (c : Nat) {x : Chan} (hx : CE x) : AllCE (cs.set c x) := by
+  intro i; rw [getD_set]; split
+  · exact hx
+  · exact h i
+
+theorem ce_open {x : Chan} (h : x.closed = false) : CE x := by intro h'; rw [h] at h'; cases h'
+
+theorem ce_nil : CE Chan.nil := ce_open rfl
+
+theorem allCE_append {cs : List Chan} (h : AllCE cs) {x : Chan} (hx : CE x) : AllCE (cs ++ [x]) := by
+  intro i
+  simp only [List.getD_eq_getElem?_getD]
+  by_cases h1 : i < cs.length
+  · rw [List.getElem?_append_left h1]; have := h i; simpa [List.getD_eq_getElem?_getD] using this
+  · by_cases h2 : i = cs.length
+    · subst h2; simp; exact hx
+    · rw [List.getElem?_eq_none (by simp; omega)]; exact ce_nil
+
+theorem doSend_ce (s : State) (g c v : Nat) (h : AllCE s.chans) : AllCE (doSend s g c v).1.chans := by
+  unfold doSend; simp only
+  split
+  · exact h
+  · next hopen =>
+    have ho : (getC s c).closed = false := by simpa using hopen
+    split
+    · refine AllCE.shrinks ?_ (fireRecv_shrinks _ _ _ _)
+      simp only [setC_chans]; exact h.set c (ce_open ho)
+    · split
+      · simp only [setC_chans]; exact h.set c (ce_open ho)
+      · simp only [block_chans, setC_chans]; exact h.set c (ce_open ho)
+
+theorem recvTail_ce (s : State) (g c : Nat) (h : AllCE s.chans) : AllCE (recvTail s g c).1.chans := by
+  unfold recvTail; simp only
+  have hc : CE (getC s c) := h c
+  split
+  · simp only [setC_chans]; exact h.set c (fun hcl => hc hcl)
+  · split
+    · split <;> exact h
+    · next hopen =>
+      simp only [block_chans, setC_chans]; exact h.set c (ce_open (by simpa using hopen))
+
+theorem doRecv_ce (s : State) (g c : Nat) (h : AllCE s.chans) : AllCE (doRecv s g c).1.chans := by
+  unfold doRecv; simp only
+  have hc : CE (getC s c) := h c
+  split
+  · next e sq heq =>
+    apply recvTail_ce
+    have h0 : AllCE (setC s c { getC s c with sendQ := sq }).chans := by
+      simp only [setC_chans]; apply h.set
+      exact hc.shrink ⟨rfl, rfl, rfl, rfl, rfl, rfl, by simp [heq], List.Sublist.refl _⟩
+    have h1 := h0.shrinks (fireSend_shrinks (setC s c { getC s c with sendQ := sq }) e false)
+    simp only [setC_chans]; apply h1.set
+    exact fun hcl => (h1 c) hcl
+  · exact recvTail_ce _ _ _ h
+
+theorem closeSenders_empties : ∀ (n : Nat) (s : State) (c : Nat), (getC s c).sendQ.length ≤ n →
+    (getC (closeSenders n s c) c).sendQ = [] := by
+  intro n; induction n with
+  | zero => intro s c hl; simp only [closeSenders]; exact List.eq_nil_of_length_eq_zero (Nat.le_zero.mp hl)
+  | succ n ih =>
+    intro s c hl
+    unfold closeSenders; simp only
+    split
+    · next heq => exact heq
+    · next e sq heq =>
+      apply ih
+      have hc : c < s.chans.length := by
+        apply Decidable.byContradiction; intro hn
+        have : getC s c = Chan.nil := by
+          simp [getC_def, List.getD_eq_getElem?_getD, List.getElem?_eq_none (Nat.le_of_not_lt hn)]
+        rw [this] at heq; cases heq
+      have hg : getC (setC s c { getC s c with sendQ := sq }) c = { getC s c with sendQ := sq } := by
+        simp [getC_def, hc]
+      have h1 := (fireSend_shrinks (setC s c { getC s c with sendQ := sq }) e true c).sendQ.length_le
+      rw [← getC_def, ← getC_def, hg] at h1
+      dsimp only at h1
+      rw [heq] at hl; simp at hl; omega
+
+theorem closeRecvs_empties : ∀ (n : Nat) (s : State) (c : Nat), (getC s c).recvQ.length ≤ n →
+    (getC (closeRecvs n s c) c).recvQ = [] := by
+  intro n; induction n with
+  | zero => intro s c hl; simp only [closeRecvs]; exact List.eq_nil_of_length_eq_zero (Nat.le_zero.mp hl)
+  | succ n ih =>
+    intro s c hl
+    unfold closeRecvs; simp only
+    split
+    · next heq => exact heq
+    · next e rq heq =>
+      apply ih
+      have hc : c < s.chans.length := by
+        apply Decidable.byContradiction; intro hn
+        have : getC s c = Chan.nil := by
+          simp [getC_def, List.getD_eq_getElem?_getD, List.getElem?_eq_none (Nat.le_of_not_lt hn)]
+        rw [this] at heq; cases heq
+      have hg : getC (setC s c { getC s c with recvQ := rq }) c = { getC s c with recvQ := rq } := by
+        simp [getC_def, hc]
+      have h1 := (fireRecv_shrinks (setC s c { getC s c with recvQ := rq }) e 0 false c).recvQ.length_le
+      rw [← getC_def, ← getC_def, hg] at h1
+      dsimp only at h1
+      rw [heq] at hl; simp at hl; omega
+
+/-- after the two loops of `$close` nobody is queued on the channel -/
+theorem closeLoops_empty (s1 : State) (c : Nat) :
+    let s3 := closeRecvs (getC (closeSenders (getC s1 c).sendQ.length s1 c) c).recvQ.length (closeSenders (getC s1 c).sendQ.length s1 c) c
+    (getC s3 c).sendQ = [] ∧ (getC s3 c).recvQ = [] := by
+  intro s3
+  refine ⟨?_, closeRecvs_empties _ _ _ (Nat.le_refl _)⟩
+  have h1 := closeSenders_empties (getC s1 c).sendQ.length s1 c (Nat.le_refl _)
+  have h2 := (closeRecvs_shrinks (getC (closeSenders (getC s1 c).sendQ.length s1 c) c).recvQ.length (closeSenders (getC s1 c).sendQ.length s1 c) c c).sendQ
+  rw [← getC_def, ← getC_def, h1] at h2
+  exact List.sublist_nil.mp h2
+
+theorem doClose_ce (s : State) (c : Nat) (h : AllCE s.chans) : AllCE (doClose s c).1.chans := by
+  unfold doClose; simp only
+  split
+  · exact h
+  · split
+    · exact h
+    · intro i
+      have hsh := closeLoops_shrinks (setC s c { getC s c with closed := true }) c (getC s c).sendQ.length i
+      by_cases hi : c = i
+      · subst hi
+        have hl : (getC (setC s c { getC s c with closed := true }) c).sendQ.length = (getC s c).sendQ.length := by
+          simp only [getC_def, setC_chans, getD_set]; split <;> rfl
+        have := closeLoops_empty (setC s c { getC s c with closed := true }) c
+        rw [hl] at this
+        intro _; exact this
+      · apply CE.shrink _ hsh
+        simp only [setC_chans, getD_set]
+        rw [if_neg (fun hh => hi hh.1)]
+        exact h i
+
+theorem registerCases_ce (g : Nat) (cases : List Case) : ∀ (i : Nat) (cs : List Chan),
+    AllCE cs → (∀ k ∈ cases, NotReady cs k) → AllCE (registerCases g cases i cs) := by
+  induction cases with
+  | nil => intro i cs h _; exact h
+  | cons k rest ih =>
+    intro i cs h hn
+    have hk := hn k (by simp)
+    have stable : ∀ (x : Chan) (c : Nat), x.buf = (cs.getD c Chan.nil).buf → x.cap = (cs.getD c Chan.nil).cap →
+        x.closed = (cs.getD c Chan.nil).closed → ∀ k' ∈ rest, NotReady (cs.set c x) k' := by
+      intro x c hb hcap hcl k' hk'
+      have := hn k' (by simp [hk'])
+      cases k' with
+      | dflt => trivial
+      | recv c' =>
+        simp only [NotReady] at this ⊢; rw [getD_set]; split
+        · next h' => rw [hb, hcl, h'.1]; exact this
+        · exact this
+      | send c' v' =>
+        simp only [NotReady] at this ⊢; rw [getD_set]; split
+        · next h' => rw [hb, hcap, hcl, h'.1]; exact this
+        · exact this
+    cases k with
+    | dflt => exact ih _ _ h (fun k' hk' => hn k' (by simp [hk']))
+    | recv c =>
+      unfold registerCases; simp only
+      apply ih
+      · exact h.set c (ce_open hk.2)
+      · exact stable _ c rfl rfl rfl
+    | send c v =>
+      unfold registerCases; simp only
+      apply ih
+      · exact h.set c (ce_open hk.2)
+      · exact stable _ c rfl rfl rfl
+
+theorem doSelect_ce (s : State) (g : Nat) (cases : List Case) (pick : Nat) (h : AllCE s.chans) :
+    AllCE (doSelect s g cases pick).1.chans := by
+  unfold doSelect
+  generalize hsc : scan s cases 0 = r
+  obtain ⟨ready, dsel, thr⟩ := r
+  simp only
+  split
+  · exact h
+  · next hthr =>
+    split
+    · split
+      · exact h
+      · next c _ =>
+        have := doRecv_ce s g c h
+        split
+        · next s1 v ok heq => rw [heq] at this; exact this
+        · exact this
+      · next c v _ =>
+        have := doSend_ce s g c v h
+        split
+        · next s1 heq => rw [heq] at this; exact this
+        · exact this
+    · next hsel =>
+      simp only [block_chans]
+      have hr : ready = [] := by
+        split at hsel
+        · cases hsel
+        · next hl => simp at hl; exact hl
+      have ht : thr = false := by simpa using hthr
+      subst hr; subst ht
+      exact registerCases_ce g cases 0 s.chans h (scan_notReady s cases 0 dsel hsc)
+
+theorem step_ce (s : State) (ev : Event) (h : AllCE s.chans) : AllCE (step s ev).1.chans := by
+  unfold step
+  split
+  · split
+    · exact allCE_append h (ce_open rfl)
+    · exact h
+    · split
+      · exact doSend_ce _ _ _ _ h
+      · exact h
+    · split
+      · exact doRecv_ce _ _ _ h
+      · exact h
+    · split
+      · exact doClose_ce _ _ h
+      · exact h
+    · split
+      · exact doSelect_ce _ _ _ _ h
+      · exact h
+    · split <;> exact h
+    · simp only [endSlice_chans, setG_chans]; exact h
+    · exact h
+    · exact h
+  · split
+    · split
+      · split
+        · exact h
+        · exact h
+      · exact h
+      · exact h
+    · split
+      · exact allCE_append h (ce_open rfl)
+      · simp only [enterLoop_chans, goNew_chans]; exact h
+      · split
+        · exact h
+        · simp only [enterLoop_chans]; exact h
+        · simp only
+          split
+          · exact h
+          · split
+            · next s2 heq =>
+              have hcl : AllCE s2.chans := by
+                have e := congrArg Prod.fst heq; simp only at e; rw [← e]; exact doClose_ce _ _ h
+              split
+              · simp only [enterLoop_chans]; exact hcl
+              · exact hcl
+            · exact doClose_ce _ _ h
+      · exact h
+
+theorem init_ce : AllCE GV.Sched.init.chans := by
+  intro i
+  cases i with
+  | zero => exact ce_nil
+  | succ n => simp [GV.Sched.init, List.getD_eq_getElem?_getD]; exact ce_nil
+
+theorem runAll_ce : ∀ (evs : List Event) (s : State), AllCE s.chans → AllCE (runAll s evs).chans := by
+  intro evs; induction evs with
+  | nil => intro s h; exact h
+  | cons e es ih => intro s h; exact ih _ (step_ce s e h)
 
 end GV.Proofs.ChanInv
